@@ -133,7 +133,7 @@ def ev(e, env, subst=None):
 
 
 class Effect:
-    __slots__ = ("kind", "target", "op", "value", "expr", "conds", "loops", "node")
+    __slots__ = ("kind", "target", "op", "value", "expr", "conds", "loops", "node", "cvals")
 
     @property
     def delta(self):
@@ -148,7 +148,10 @@ class Effect:
 
     def __init__(self, kind, target, op, value, expr, conds, loops, node):
         self.kind, self.target, self.op, self.value = kind, target, op, value
-        self.expr, self.conds, self.loops, self.node = expr, tuple(conds), tuple(loops), node
+        self.expr, self.loops, self.node = expr, tuple(loops), node
+        # a condition is (text of the test, outcome); its evaluated operands travel separately
+        self.conds = tuple((c[0], c[1]) for c in conds)
+        self.cvals = tuple(c[2] if len(c) > 2 else None for c in conds)
 
     def __repr__(self):
         return f"<{self.kind} {self.target} {self.op or ''} {self.value!r} if {list(self.conds)} in {list(self.loops)}>"
@@ -176,6 +179,8 @@ class Interp:
         self.sets0 = dict(sets or {})
         self.tuples = dict(tuples or {})   # text of an expression -> tuple of names/Polys it unpacks to
         self.effects = []
+        self.watch = set()                 # local names whose augmented assignments are recorded as effects
+        self.tests = {}                    # text of a test -> its AST
 
     # -- values
     def val(self, e, env, sets):
@@ -198,10 +203,15 @@ class Interp:
         for i, st in enumerate(body):
             if isinstance(st, ast.If):
                 t = _txt(st.test)
+                self.tests[t] = st.test
+                cv = None
+                if isinstance(st.test, ast.Compare) and len(st.test.ops) == 1:
+                    cv = (self.val(st.test.left, env, sets), type(st.test.ops[0]).__name__,
+                          self.val(st.test.comparators[0], env, sets))
                 e1, s1 = dict(env), dict(sets)
-                self._block(st.body + body[i + 1:], e1, s1, conds + [(t, True)], loops)
+                self._block(st.body + body[i + 1:], e1, s1, conds + [(t, True, cv)], loops)
                 e2, s2 = dict(env), dict(sets)
-                self._block(st.orelse + body[i + 1:], e2, s2, conds + [(t, False)], loops)
+                self._block(st.orelse + body[i + 1:], e2, s2, conds + [(t, False, cv)], loops)
                 return
             self._stmt(st, env, sets, conds, loops)
             if isinstance(st, (ast.Raise, ast.Return, ast.Continue, ast.Break)):
@@ -254,6 +264,9 @@ class Interp:
                 self._bind(t, st.value, env, sets, conds, loops, st)
         elif isinstance(st, ast.AugAssign):
             if isinstance(st.target, ast.Name):
+                if st.target.id in self.watch:
+                    self.effects.append(Effect("aug", st.target.id, type(st.op).__name__,
+                                               self.val(st.value, env, sets), st.value, conds, loops, st))
                 try:
                     cur = env[st.target.id]
                     v = ev(st.value, env)
